@@ -50,10 +50,32 @@ def main(ctx):
                                                                                          for k, v in ff.items()})
     else:
         ctx.traces_validated = n
+    # cost that the call counter cannot see (work around the grammar inside Module.parseString): fresh subprocesses, CPU time
+    # judged through very wide margins (timeout 40 s where the unchanged tree needs < 5 s; growth <= 6x per step where it is < 2x)
+    if res["ok"]:
+        hz = subprocess.run([sys.executable, os.path.join(HERE, "c19_hazard.py"), "--tier", ctx.tier],
+                            capture_output=True, text=True, timeout=5000, env=dict(os.environ, VERIF_REPO=fw.REPO))
+        try:
+            hres = json.loads(hz.stdout)
+        except Exception:
+            raise RuntimeError("c19_hazard.py produced no JSON: " + (hz.stdout + hz.stderr)[-1500:])
+        for row in hres["rows"]:
+            ctx.evaluations += 1
+            ctx.distinct.add("hazard/%s/%s" % (row["family"], row["param"]))
+            ctx.count("hazard_family_" + row["family"])
+        ctx.extra["hazard"] = dict(thresholds=hres["thresholds"], rows=hres["rows"])
+        if not hres["ok"]:
+            ff = hres["first_failure"]
+            ctx.spec_fail("parse cost exceeds the envelope (time): " + ff["detail"], family=ff["family"], param=ff["param"],
+                          input=ff["text"], cpu_seconds=ff["cpu_seconds"], status=ff["status"])
+        else:
+            ctx.traces_validated += len(hres["rows"])
     ctx.extra["rule"] = ("scaled families: namespace depth d, template-argument depth d, n declarations, combinations, long "
-                         "argument lists / defaults; distinct = distinct (family, parameter); verdict by call counts only")
+                         "argument lists / defaults; distinct = distinct (family, parameter); verdict by call counts, plus the hazard families "
+                         "(deep namespaces, comment openers and slashes inside string literals, one very long line) judged by CPU time in fresh subprocesses")
     return fw.finish(ctx, assumptions=["the bound is proved for an unbounded memo table; pyparsing's 128-entry FIFO is measured against it",
-                                       "call counting wraps ParserElement._parseNoCache in the harness process only"])
+                                       "call counting wraps ParserElement._parseNoCache in the harness process only",
+                                       "the hazard families are judged by CPU time with wide margins (40 s timeout, 6x growth per step): a slowdown inside these margins is not seen"])
 
 
 def replay(ctx, path):
